@@ -295,7 +295,7 @@ Proof.
     intros [r0 o0] s y0 Hx Es. unfold vi_nextcol in Es. destruct (getl b r0); [|inversion Es; subst; exact Hx].
     destruct (_ <? 0); inversion Es; subst; [exact Hx|]. cbn. apply ren_off_nonneg.
   - (* 0 *) inversion E; lia.
-  - (* ^ *) inversion E; subst. left. unfold lbuf_indents. destruct (getl b _); [apply count_space_nonneg|lia].
+  - (* ^ *) inversion E; subst. left. pose proof (lbuf_eol_nonneg b r). assert (0 <= lbuf_indents b r) by (unfold lbuf_indents; destruct (getl b _); [apply count_space_nonneg|lia]). lia.
   - (* $ *) inversion E. left. apply lbuf_eol_nonneg.
   - (* | *) inversion E; subst. left. unfold vi_col2off. destruct (getl b _); [apply ren_off_nonneg|lia].
   - (* ; *) destruct cl; [discriminate|]. eapply FC; exact E.
@@ -618,6 +618,13 @@ Proof.
   rewrite Hb. cbn [N.eqb Pos.eqb]. destruct (Z.ltb_spec 0 (slen l - 1)); cbn [andb]; lia.
 Qed.
 
+Lemma ren_noeol_min l o : 1 <= slen l -> ren_noeol (Some l) (Z.min o (slen l - 1)) = ren_noeol (Some l) o.
+Proof.
+  intro H. destruct (Z.le_gt_cases o (slen l - 1)); [rewrite Z.min_l by lia; reflexivity|]. rewrite Z.min_r by lia.
+  unfold ren_noeol. destruct (Z.geb_spec (slen l - 1) (slen l)); [lia|]. destruct (Z.geb_spec o (slen l)); [|lia].
+  rewrite Z.max_r by lia. reflexivity.
+Qed.
+
 Lemma col_motions_land b rows a1 a2 k s l : buf_wf b -> cursor_ok b (v_row s) (v_off s) ->
   getl b (v_row s) = Some l ->
   match k with K0 | Kcaret | Kdollar | Kbar => True | _ => False end ->
@@ -633,11 +640,12 @@ Proof.
   intros HW HC El Hk. pose proof (cursor_ok_off _ _ _ HC) as Ho. pose proof (getl_wf _ _ _ HW El) as Hl.
   assert (M : exists o pc, vi_motion b rows (v_top s) (v_cl s) (v_cc s) (v_pcol s) (m_has a1 a2) (m_cnt a1 a2) k (v_row s)
             (ren_noeol (getl b (v_row s)) (v_off s)) = MvOk (v_row s) o (v_cl s) (v_cc s) pc /\ 0 <= o /\
-            o = match k with K0 => 0 | Kcaret => count_space l | Kdollar => slen l - 1 | _ => ren_off l (m_cnt a1 a2 - 1) end /\
+            o = match k with K0 => 0 | Kcaret => Z.min (count_space l) (slen l - 1) | Kdollar => slen l - 1 | _ => ren_off l (m_cnt a1 a2 - 1) end /\
             pc = match k with Kbar => m_cnt a1 a2 - 1 | _ => v_pcol s end).
   { destruct k; try contradiction; unfold vi_motion; cbn [vi_motionln].
     - do 2 eexists. split; [reflexivity|]. repeat split; lia.
-    - do 2 eexists. split; [reflexivity|]. unfold lbuf_indents. rewrite El. repeat split. apply count_space_nonneg.
+    - do 2 eexists. split; [reflexivity|]. unfold lbuf_indents, lbuf_eol. rewrite El. pose proof (wf_slen_pos l Hl). pose proof (count_space_nonneg l).
+      destruct (Z.eqb_spec (slen l) 0); [lia|]. repeat split; lia.
     - do 2 eexists. split; [reflexivity|]. unfold lbuf_eol. rewrite El. pose proof (wf_slen_pos l Hl).
       destruct (Z.eqb_spec (slen l) 0); [lia|]. repeat split; lia.
     - do 2 eexists. split; [reflexivity|]. unfold vi_col2off. rewrite El. repeat split. apply ren_off_nonneg. }
@@ -648,6 +656,7 @@ Proof.
   rewrite Hj in *. destruct (Z.ltb_spec o 0); [lia|].
   destruct k; try contradiction; cbn [is_bar] in H3; subst o; split; auto.
   - rewrite H2. apply ren_noeol_zero, Hl.
+  - rewrite H2. apply ren_noeol_min, wf_slen_pos, Hl.
   - rewrite H2. apply ren_noeol_eol, Hl.
   - rewrite H3. exact Epc.
 Qed.
